@@ -62,6 +62,10 @@ def instances_for(prop, tier, seed):
         add(script='listok', prefix='inflight_partial2', k=k - 1, budget={'longtick': 1})
         # an error reply cut at every byte position (the rest arrives in the next read)
         add(script='fail', prefix='inflight', k=3, budget={'cutat': 1})
+        # a quiet minute passes while an idle reply is half delivered (no request at all)
+        add(script='none', k=k, budget={'change': 2, 'longtick': 1})
+        # subsystem names the client does not know, with a carriage return inside / at the end (preserved verbatim)
+        add(script='one', k=k, budget={'change': 2, 'names': ['remote\r', 'x\ry', 'player']})
         # the user has dropped the event receiver
         add(script='two', k=k, budget={'dropevents': 1, 'change': 1})
         add(script='one', prefix='inflight', k=k, budget={'dropevents': 1, 'change': 2, 'tick': 1})
@@ -331,7 +335,7 @@ def classes_c04(obs):
     ks = []
     if obs['multi_changed']:
         ks.append('F-C04-a')
-    if obs['noidle_inside_idle_reply'] or 'idle_reply_dropped' in obs['flags']:
+    if 'idle_reply_dropped' in obs['flags']:         # (exactly the recorded class: a request was taken / the loop ended at that moment)
         ks.append('F-C04-b')
     return ks
 
